@@ -1,13 +1,11 @@
 #!/bin/bash
-# Runs every blind-seeded change under /verif/seeded against its property's quick check and records the outcome in
-# /verif/seeded/RESULTS.txt (P = a proof obligation fails, B = a bounded case fails, L = obligations lost).
+# Runs every blind-seeded change under /verif/seeded against its property's quick check (3 at a time, each on its own
+# scratch worktree) and records the outcome in /verif/seeded/RESULTS.txt (P = a proof obligation fails, B = a bounded case
+# fails, L = obligations lost).
 cd /verif
 out=/verif/seeded/RESULTS.txt
-: > $out.tmp
-bad=0
-for d in seeded/*/; do
-  n=$(basename $d)
-  [ -f $d/patch.diff ] || continue
+one() {
+  n=$1
   r=$(tools/seedrun.sh $n quick 400)
   rc=$(echo "$r" | grep -o 'rc=[0-9]*' | tail -1)
   how=""
@@ -16,9 +14,12 @@ for d in seeded/*/; do
   echo "$r" | grep -q '^FAILED OBLIGATION bounded:' && how="${how}B"
   input=$(echo "$r" | grep -q 'no-failing-input-found' && echo "some-without-input" || echo "input")
   first=$(echo "$r" | grep -m1 '^FAILED OBLIGATION' | cut -c19-140)
-  echo "$n $rc caught-by=${how:-NONE} $input :: $first" | tee -a $out.tmp
-  [ "$rc" = "rc=1" ] || bad=$((bad+1))
-done
-mv $out.tmp $out
+  echo "$n $rc caught-by=${how:-NONE} $input :: $first"
+}
+export -f one
+ls -d seeded/*/ | while read d; do [ -f $d/patch.diff ] && basename $d; done | xargs -P 3 -I{} bash -c 'one {}' > $out.tmp
+sort $out.tmp > $out; rm -f $out.tmp
+cat $out
+bad=$(grep -vc ' rc=1 ' $out)
 echo "seeded changes not reported: $bad"
 [ $bad -eq 0 ]
